@@ -645,7 +645,7 @@ def translate_fn(f, out):
             else:
                 joined.append(s)
         blocks[b] = joined
-    NEW_TYPES.clear(); I8SRC.clear()
+    NEW_TYPES.clear(); I8SRC.clear(); P2I.clear()
     for ln_ in f.body:
         m_ = re.match(r'\s*%\S+ = bitcast i8\* (%[-\w.$]+) to (%"[^"]+"|%[-\w.$]+)\*\s*(,|$)', ln_)
         if m_ and m_.group(1) not in NEW_TYPES:
@@ -657,11 +657,13 @@ def translate_fn(f, out):
     fnret = f.ret
     for (at, an, info) in f.args:
         pass
+    cur_loc = [None]
     def lab(name):
         return 'L_' + mangle('%' + name)
-    def emit(s): code.append('  ' + s)
+    def emit(s):
+        if cur_loc[0]: code.append('#line %d "%s"' % cur_loc[0])
+        code.append('  ' + s)
     entry_label = None
-    cur_loc = [None]
     for bname, insts in blocks.items():
         code.append('%s: ;' % lab(bname))
         for s in insts:
@@ -669,9 +671,7 @@ def translate_fn(f, out):
             md_ = re.search(r'!dbg (!\d+)', s)
             if md_:
                 loc_ = dbg_loc(md_.group(1))
-                if loc_ and loc_ != cur_loc[0]:
-                    cur_loc[0] = loc_
-                    code.append('#line %d "%s"' % loc_)
+                if loc_: cur_loc[0] = loc_
             # strip trailing metadata  ", !dbg !12"
             cut = len(toks)
             for ti, (k, v) in enumerate(toks):
@@ -746,12 +746,17 @@ def translate_fn(f, out):
             elif op in ('bitcast', 'inttoptr', 'ptrtoint', 'trunc', 'zext', 'sext', 'uitofp', 'sitofp', 'fptoui', 'fptosi', 'fpext', 'fptrunc', 'addrspacecast'):
                 st = p.type(); x = operand(p, st, f); p.expect('to'); dt = p.type()
                 setv(dt, cast_expr(op, x, dt))
+                if op == 'ptrtoint' and dst and resolve(dt).bits == 64: P2I[local(dst)] = x.c
                 if op == 'bitcast' and dst and isinstance(resolve(st), PtrT) and isinstance(resolve(dt), PtrT) and not isinstance(resolve(resolve(st).to), (IntT, FuncT, OpaqueT)):
                     I8SRC[local(dst)] = resolve(st).to
             elif op in ('add', 'sub', 'mul', 'and', 'or', 'xor', 'shl', 'lshr', 'ashr', 'udiv', 'sdiv', 'urem', 'srem', 'fadd', 'fsub', 'fmul', 'fdiv'):
                 while p.peek()[1] in ('nuw', 'nsw', 'exact', 'fast', 'nnan', 'ninf', 'nsz', 'arcp', 'contract', 'afn', 'reassoc'): p.next()
                 t = p.type(); a = operand(p, t, f); p.expect(','); b = operand(p, t, f)
-                setv(t, binop_expr(op, a, b))
+                if op == 'sub' and a.c in P2I and b.c in P2I:
+                    # pointer difference: keep it a pointer subtraction (CBMC decides it on offsets; integer addresses are nondeterministic)
+                    setv(t, '__vp_pdiff(%s, %s)' % (P2I[a.c], P2I[b.c]))
+                else:
+                    setv(t, binop_expr(op, a, b))
             elif op == 'icmp':
                 pred = p.next()[1]; t = p.type(); a = operand(p, t, f); p.expect(','); b = operand(p, t, f)
                 setv(IntT(1), icmp_expr(pred, a, b))
@@ -915,6 +920,7 @@ def translate_fn(f, out):
 
 PHIS = {}
 I8SRC = {}
+P2I = {}
 def leaves(t, base):
     r = resolve(t)
     if isinstance(r, StructT):
